@@ -435,16 +435,32 @@ class UserSource(lazy_dataset.Dataset):
         return iter([{'src': self.offset + i} for i in range(self.n)])
 
 
+class _PlainIterator:
+    """an iterator object that is not a generator: no close(), no throw()"""
+
+    def __init__(self, it):
+        self.it = it
+
+    def __iter__(self):
+        return self
+
+    def __next__(self):
+        return next(self.it)
+
+
 class UserStage(lazy_dataset.Dataset):
     """A user-written pass-through stage (a Dataset subclass delegating length,
     index access and copy) whose `__iter__` is an ordinary method: a failure
     while the iteration is set up is raised by `iter(ds)` itself."""
 
-    def __init__(self, input_dataset):
+    def __init__(self, input_dataset, cleanup=0, plain_iter=False):
         self.input_dataset = input_dataset
+        self.cleanup = cleanup          # the iteration's clean-up takes that long (virtual ms)
+        self.plain_iter = plain_iter    # __iter__ returns an iterator object without close()
 
     def copy(self, freeze=False):
-        return self.__class__(self.input_dataset.copy(freeze=freeze))
+        return self.__class__(self.input_dataset.copy(freeze=freeze), self.cleanup,
+                              self.plain_iter)
 
     @property
     def indexable(self):
@@ -453,6 +469,20 @@ class UserStage(lazy_dataset.Dataset):
     @property
     def ordered(self):
         return self.input_dataset.ordered
+
+    def _slow_cleanup_iter(self):
+        try:
+            for x in self.input_dataset:
+                yield x
+        finally:
+            ctx = CTX
+            if ctx is not None and ctx.sim is not None and ctx.sim.me() is not None \
+                    and not ctx.sim.aborting:
+                # releasing what the iteration holds takes a while (a file is
+                # flushed, a connection closed): the thread that finalises the
+                # iterator is not runnable meanwhile
+                ctx.event('cleanup', 'src_iter')
+                ctx.sim.sleep(self.cleanup / 1000.0)
 
     def __len__(self):
         return len(self.input_dataset)
@@ -475,6 +505,10 @@ class UserStage(lazy_dataset.Dataset):
                 ctx.fired[k] = ctx.fired.get(k, 0) + 1
                 ctx.event('raise', 'src_iter', (), k)
                 raise e
+        if self.cleanup:
+            return self._slow_cleanup_iter()
+        if self.plain_iter:
+            return _PlainIterator(iter(self.input_dataset))
         return iter(self.input_dataset)
 
 
@@ -571,7 +605,8 @@ def apply_stage(ds, st, parallel=True):
             other = other.map(MapFn(st['map']))
         return ds.concatenate(other)
     if op == 'userstage':
-        return UserStagePlain(ds) if st.get('plain') else UserStage(ds)
+        return (UserStagePlain if st.get('plain') else UserStage)(
+            ds, cleanup=st.get('cleanup', 0), plain_iter=bool(st.get('plain_iter')))
     if op == 'keyzip':
         off = st.get('offset', 300)
         keys = list(ds.keys())
